@@ -49,6 +49,8 @@ pub enum HAct {
     Pend,
     Read,
     ReadAll,
+    /// drop the request payload (oracle-only scenarios; not modelled)
+    Drop,
     Respond(RespBody),
 }
 #[derive(Serialize, Deserialize, Clone, Copy, Debug, PartialEq)]
@@ -75,6 +77,9 @@ pub struct Round {
     pub fl: Vec<F>,
     #[serde(default)]
     pub hw: bool,
+    /// the peer resets the connection (oracle-only scenarios; not modelled)
+    #[serde(default)]
+    pub rst: bool,
 }
 #[derive(Serialize, Deserialize, Clone, Debug, PartialEq)]
 pub struct Case {
@@ -115,7 +120,10 @@ pub enum HeadKind {
     None,
     Sized(usize),
     Stream,
+    /// 431 as the first response of the connection (carries `connection: close`)
     E431,
+    /// 431 after at least one keep-alive request has been decoded
+    E431After,
 }
 
 thread_local! {
@@ -140,6 +148,17 @@ pub fn head_len(k: HeadKind) -> usize {
             };
             run_case(&case, false).accepted_total
         }
+        HeadKind::E431After => {
+            let case = Case {
+                kind: "cal".into(),
+                wbs: 32768,
+                r: LW,
+                items: vec![Item::Req { h: 18, b: None }, Item::Endless],
+                handlers: vec![vec![HAct::Respond(RespBody::None)]],
+                rounds: vec![Round { add: MAXB + 2 * LW, wr: vec![W::A(1 << 30); 3], ..Default::default() }],
+            };
+            run_case(&case, false).accepted_total - head_len(HeadKind::None)
+        }
         _ => {
             let (body, extra) = match k {
                 HeadKind::None => (RespBody::None, 0),
@@ -162,7 +181,9 @@ pub fn head_len(k: HeadKind) -> usize {
 }
 /// compute (outside of any runtime) every head length the case needs
 pub fn prewarm(case: &Case) {
+    head_len(HeadKind::None);
     head_len(HeadKind::E431);
+    head_len(HeadKind::E431After);
     for h in &case.handlers {
         for a in h {
             if let HAct::Respond(b) = a {
@@ -272,10 +293,7 @@ impl MessageBody for ScriptBody {
         let this = self.get_mut();
         let mut rec = this.rec.borrow_mut();
         match this.acts.pop_front() {
-            None => {
-                rec.hwaker = Some(cx.waker().clone());
-                Poll::Pending
-            }
+            None => Poll::Pending,
             Some(BAct::Pend) => {
                 rec.hreg = true;
                 rec.hwaker = Some(cx.waker().clone());
@@ -305,7 +323,7 @@ impl Future for HandlerFut {
         let this = self.get_mut();
         loop {
             let Some(a) = this.acts.front().cloned() else {
-                this.rec.borrow_mut().hwaker = Some(cx.waker().clone());
+                // script exhausted: this handler never completes and waits for nothing
                 return Poll::Pending;
             };
             match a {
@@ -315,6 +333,10 @@ impl Future for HandlerFut {
                     rec.hreg = true;
                     rec.hwaker = Some(cx.waker().clone());
                     return Poll::Pending;
+                }
+                HAct::Drop => {
+                    this.acts.pop_front();
+                    this.payload = actix_http::Payload::None;
                 }
                 HAct::Read | HAct::ReadAll => match Pin::new(&mut this.payload).poll_next(cx) {
                     Poll::Ready(Some(Ok(b))) => {
@@ -362,6 +384,8 @@ pub struct Snap {
     pub woke: bool,
     pub hreg: bool,
     pub produced: usize,
+    /// responses returned by handlers so far
+    pub responded: usize,
     /// polls performed in this round (wake-driven mode)
     pub polls: usize,
 }
@@ -435,6 +459,9 @@ pub fn run_case(case: &Case, wake_driven: bool) -> RunOut {
             if rd.eof {
                 io.close_read();
             }
+            if rd.rst {
+                io.fail_read();
+            }
             if !rd.wr.is_empty() {
                 io.script_writes(&rd.wr.iter().map(|w| wstep(*w)).collect::<Vec<_>>());
             }
@@ -484,6 +511,7 @@ pub fn run_case(case: &Case, wake_driven: bool) -> RunOut {
                     woke: conn.woken() > 0,
                     hreg: rc.hreg,
                     produced: rc.produced,
+                    responded: rc.responded,
                     polls,
                 };
                 if snap.res != 0 {
@@ -510,6 +538,7 @@ pub fn run_case(case: &Case, wake_driven: bool) -> RunOut {
                     pulled: rc.pulled,
                     accepted: s.total_written,
                     produced: rc.produced,
+                    responded: rc.responded,
                     ..Default::default()
                 };
             }
@@ -566,6 +595,7 @@ pub fn coq_hact(a: &HAct) -> String {
         HAct::Pend => "HPend".into(),
         HAct::Read => "HRead".into(),
         HAct::ReadAll => "HReadAll".into(),
+        HAct::Drop => "HDrop_not_modelled".into(),
         HAct::Respond(b) => {
             let h = resp_head_len(b);
             match b {
@@ -591,6 +621,55 @@ pub fn coq_f(f: &F) -> String {
         F::E => "FErr".into(),
     }
 }
+/// the 431 response this case would get: with `connection: close` only when no request precedes
+pub fn h431_for(c: &Case) -> usize {
+    match c.items.first() {
+        Some(Item::Req { h, .. }) if *h < MAXB => head_len(HeadKind::E431After),
+        _ => head_len(HeadKind::E431),
+    }
+}
+
+/// Clip the rounds to the bytes the stream really has (so that the model is told the same), and
+/// keep the scenario inside the class the composer models: at most one request carries a body
+/// and every handler in front of it answers at once (a response produced while a LATER request's
+/// body is in flight takes the close-for-unread-payload path, which belongs to C03).
+pub fn normalize(c: &mut Case) {
+    let mut seen_body = false;
+    for it in c.items.iter_mut() {
+        if let Item::Req { h, b } = it {
+            if b.is_some() {
+                if seen_body {
+                    *b = None;
+                    *h = fit_head(*h, None);
+                }
+                seen_body = true;
+            }
+        }
+    }
+    if let Some(i) = c.items.iter().position(|it| matches!(it, Item::Req { b: Some(_), .. })) {
+        for h in c.handlers.iter_mut().take(i) {
+            h.retain(|a| matches!(a, HAct::Respond(_)));
+            h.truncate(1);
+        }
+        // the handler of the body request reads its body to the end before it answers
+        if let Some(h) = c.handlers.get_mut(i) {
+            if let Some(p) = h.iter().position(|a| matches!(a, HAct::Respond(_))) {
+                if !h[..p].contains(&HAct::ReadAll) {
+                    h.insert(p, HAct::ReadAll);
+                }
+            }
+        }
+    }
+    if !c.items.iter().any(|i| matches!(i, Item::Endless)) {
+        let total: usize = c.items.iter().map(|i| if let Item::Req { h, b } = i { h + b.unwrap_or(0) } else { 0 }).sum();
+        let mut left = total;
+        for r in c.rounds.iter_mut() {
+            r.add = r.add.min(left);
+            left -= r.add;
+        }
+    }
+}
+
 pub fn coq_case(c: &Case, fix21: bool) -> String {
     let items = coq_rle(&c.items, |it| match it {
         Item::Req { h, b } => format!("(IReq {h} {})", coq_opt_n(*b)),
@@ -611,7 +690,7 @@ pub fn coq_case(c: &Case, fix21: bool) -> String {
         "(mk_case {} {} {} {} {} {} {})",
         c.wbs,
         c.r,
-        head_len(HeadKind::E431),
+        h431_for(c),
         vh::coq_bool(fix21),
         items,
         handlers,
